@@ -57,8 +57,19 @@ def make_model(kind, seed):
                      output='s')
     ops = {'li': li, 'o1': o1, 'cpl': cpl, 'cp1': cpl1, 'dyn': dyn}
     etp = {'ce': EdgeTplSpec('ce', ['cpl']), 'c1': EdgeTplSpec('c1', ['cp1']), 'de': EdgeTplSpec('de', ['dyn'])}
+    if kind == 'coupling2':
+        # two coupling operators with the SAME equations and variable definitions, different constants (and names)
+        for nm in ('cka', 'ckb'):
+            if seed % 2:
+                ops[nm] = OpSpec(nm, [('s', 'de', X.div(X.sub(X.mul(V('gn'), V('pre')), V('s')), V('te')))],
+                                 {'s': ('state', F(0)), 'pre': ('input', F(0)), 'gn': ('const', fp()), 'te': ('const', fp())},
+                                 output='s')
+            else:
+                ops[nm] = OpSpec(nm, [('z', 'alg', X.mul(V('gn'), X.call('tanh', V('pre'))))],
+                                 {'z': ('alg', F(0)), 'pre': ('input', F(0)), 'gn': ('const', fp())}, output='z')
+            etp['e' + nm] = EdgeTplSpec('e' + nm, [nm])
     # coupling/delay/spread kinds mostly with >= 2 units (size-1 populations hit the recorded n=1 finding)
-    lo = 1 if (kind in ('matrix', 'scalar') or (seed % 5 == 4 and kind not in ('delay2', 'spread2', 'dyncoupling'))) else 2
+    lo = 1 if (kind in ('matrix', 'scalar') or (seed % 5 == 4 and kind not in ('delay2', 'spread2', 'dyncoupling', 'coupling2', 'delay+spread', 'spread+delay'))) else 2
     na = rnd.randint(lo, 3)
     nb = rnd.randint(lo, 3)
     if kind == 'xcoupling' and seed % 4 < 2:
@@ -96,6 +107,12 @@ def make_model(kind, seed):
     elif kind == 'coupling':
         conns.append(Conn('a/li/x', 'a/li/u', Wm(na, na), edge='ce', var_map={'pre': 'source', 'post': 'a/li/x'}))
         conns.append(Conn('a/li/x', 'b/o1/u', Wm(nb, na), edge='c1', var_map={'pre': 'source'}))
+    elif kind == 'coupling2':
+        conns.append(Conn('a/li/x', 'b/o1/u', Wm(nb, na), edge='ecka', var_map={'pre': 'source'}))
+        if seed % 4 < 2:
+            conns.append(Conn('b/o1/x', 'b/o1/w', Wm(nb, nb), edge='eckb', var_map={'pre': 'source'}))
+        else:
+            conns.append(Conn('b/o1/x', 'a/li/u', Wm(na, nb), edge='eckb', var_map={'pre': 'source'}))
     elif kind == 'xcoupling':
         # coupling between two different populations whose operator reads a variable of the TARGET unit; every other
         # program gives the target variable a name of its own (v) so that it cannot be mistaken for the source's x
@@ -128,6 +145,12 @@ def make_model(kind, seed):
         else:
             conns.append(Conn('a/li/x', 'a/li/u', Wm(na, na), delay=F(1), spread=F(2, 3)))
             conns.append(Conn('b/o1/x', 'b/o1/w', Wm(nb, nb)))
+    elif kind in ('delay+spread', 'spread+delay'):
+        # a ring-buffer Connectivity and a gamma-kernel Connectivity read the same source variable, in either order
+        c_d = Conn('a/li/x', 'b/o1/u', Wm(nb, na), delay=DT * rnd.choice([2, 3]))
+        c_s = Conn('a/li/x', 'a/li/u' if seed % 2 else 'b/o1/w', Wm(na if seed % 2 else nb, na), delay=F(1), spread=F(2, 3))
+        conns += [c_d, c_s] if kind == 'delay+spread' else [c_s, c_d]
+        conns.append(Conn('b/o1/x', 'b/o1/w' if seed % 2 else 'a/li/u', Wm(nb if seed % 2 else na, nb)))
     elif kind == 'spread':
         d, s = rnd.choice([(F(1, 2), F(1, 4)), (F(1), F(2, 3)), (F(1), F(1, 2)), (F(1, 2), F(1, 2))])
         conns.append(Conn('a/li/x', 'b/o1/u', Wm(nb, na), delay=d, spread=s))
@@ -155,7 +178,9 @@ def job_fn(job):
         plugin = tvdelay.RingBufferPlugin(DT)
     elif job['kind'] in ('spread', 'spread2'):
         plugin = tvdelay.ChainPlugin()
-    elif job['kind'] == 'dyncoupling':
+    elif job['kind'] in ('delay+spread', 'spread+delay'):
+        plugin = tvdelay.Composite(tvdelay.RingBufferPlugin(DT), tvdelay.ChainPlugin())
+    elif job['kind'] == 'dyncoupling' or (job['kind'] == 'coupling2' and job['seed'] % 2):
         plugin = tvdelay.EdgeStatePlugin()
     res = tvspec.validate(spec, c, tally, vectorized=True, plugin=plugin, t_sym=2)
     r = dict(status='ok', res=res, tally=tally.as_dict(), src=c.src, keys=list(c.keys),
@@ -229,19 +254,19 @@ def run(tier='quick', seed=0, only=None, verbose=False):
         'NetworkGraph._generate_edge_equation cases 0a/0b/0c/0g, _add_matrix_delay (concrete)',
         'emitted helpers wsum / broadcast_pre / broadcast_post / reshape2d / flatten1d (symx); einsum library model'],
         bounds=dict(units='1..3 per population, two populations', kinds='matrix (sparse, signed, non-square), scalar weight, '
-                    'algebraic coupling edges with source and target variables, discrete delay, delay+spread',
+                    'algebraic and dynamic coupling edges with source and target variables, two Connectivity objects whose coupling operators differ in constants only, discrete delay, delay+spread',
                     builds='PopulationTemplate/Connectivity and explicit network (vectorize on/off)'),
         stubs=['numpy library model (einsum ij,ij->i as (W*C).sum(axis=1))'],
-        assumptions=['reals for floats', 'dynamic (state-bearing) coupling edges are not generated yet',
+        assumptions=['reals for floats', 'dynamic coupling edges: pair states with the same differential equation and the same initial value are the same function of time and share one symbol (uniqueness of ODE solutions)',
                      'zero matrix entries mean no edge'])
     jobs = []
-    kinds = ['matrix', 'scalar', 'coupling', 'xcoupling', 'dyncoupling', 'delay', 'spread', 'delay2', 'spread2']
+    kinds = ['matrix', 'scalar', 'coupling', 'xcoupling', 'dyncoupling', 'coupling2', 'delay+spread', 'spread+delay', 'delay', 'spread', 'delay2', 'spread2']
     n = 4 if tier == 'quick' else 30
     for kind in kinds:
         for i in range(n):
             jobs.append(dict(key=f"pop:{kind}:{seed}:{i}|population", kind=kind, seed=seed * 100 + i, build='population',
                              vectorize=True, spec=None))
-            if i < (2 if tier == 'quick' else 10) and kind not in ('coupling', 'xcoupling', 'dyncoupling'):
+            if i < (2 if tier == 'quick' else 10) and kind not in ('coupling', 'xcoupling', 'dyncoupling', 'coupling2'):
                 for vec in (True, False):
                     jobs.append(dict(key=f"pop:{kind}:{seed}:{i}|explicit|vec={vec}", kind=kind, seed=seed * 100 + i,
                                      build='explicit', vectorize=vec, spec=None))
